@@ -118,7 +118,7 @@ class AbstractTransformer:
         self.results: dict[str, list[Res]] = {}
         self.all_evals: list[Res] = []
         self.counter = 0
-        self.I = env.interp(stubs=self.stubs(), allow_fork=True, max_paths=64)
+        self.I = env.interp(stubs=self.stubs(), allow_fork=True, max_paths=256)
         self.labels = sorted(self.G.reachable_labels())
 
     # -- interpreter stubs ------------------------------------------------------------------------
